@@ -176,8 +176,9 @@ def run(args: argparse.Namespace) -> None:
     if args.save_results:
         logger.debug(SEP)
         if not SETTINGS.save_traj_in_zip:
-            del result.trajectories[ref_name]
-            del result.trajectories[est_name]
+            # (ref_name == est_name if the same file is given twice)
+            result.trajectories.pop(ref_name, None)
+            result.trajectories.pop(est_name, None)
         file_interface.save_res_file(args.save_results, result,
                                      confirm_overwrite=not args.no_warnings)
 
